@@ -119,4 +119,10 @@ KeysIndependent ==
 FreshOnlyAfterExpiry ==
   [][\A k \in Keys : (cnt[k] > 0 /\ cnt'[k] < cnt[k]) => srv' >= exp[k]]_vars
 
+(* ----------------------------------------------------------- Align() *)
+\* With the Align option the window does not last `period` seconds from its first take but ends at
+\* the next multiple of `period` of the local wall clock (e.g. local midnight for period = 86400):
+\* the TTL handed to the script at local second unix + offset.
+AlignedWindow(unix, offset, p) == p - ((unix + offset) % p)
+
 =============================================================================
